@@ -208,6 +208,72 @@ pub fn gen_registry_world(tape: &mut Tape, cfg: &RegGenCfg) -> World {
         modd.items.push(it);
         files.insert("/data.json".to_string(), ModuleDesc::new("", Lang::Json));
       }
+      // richer files: the remaining fields of the module information
+      if tape.draw(Stream::World, 2) == 1 {
+        let mut r = ModuleDesc::new("", Lang::Tsx);
+        if tape.draw(Stream::World, 2) == 1 {
+          r.jsx_import_source = Some("./jsx".into());
+          if tape.draw(Stream::World, 2) == 1 {
+            r.jsx_import_source_types = Some("./jsxt".into());
+          }
+        }
+        let pool = [
+          (Form::TripleSlashPath, "./types.d.ts"),
+          (Form::TripleSlashTypes, "./types.d.ts"),
+          (Form::Dynamic, "./util.ts"),
+          (Form::DynamicTpl, "./util.ts"),
+          (Form::TypeOnly, "./util.ts"),
+          (Form::ImportTypeExpr, "./mod.ts"),
+          (Form::ExportStar, "./util.ts"),
+          (Form::ExportNs, "./mod.ts"),
+          (Form::ExportType, "./util.ts"),
+          (Form::ImportEquals, "./legacy.js"),
+          (Form::Namespace, "./legacy.js"),
+          (Form::Defer, "./util.ts"),
+          (Form::SideEffect, "./gone.ts"),
+        ];
+        let k = tape.range(Stream::World, 1, 5);
+        for _ in 0..k {
+          let (f, t) = *tape.pick(Stream::World, &pool);
+          let mut it = Item::new(f, t);
+          if !f.is_comment_form()
+            && !f.is_ts_type()
+            && !f.is_dynamic()
+            && tape.draw(Stream::World, 5) == 4
+          {
+            it.types_pragma = Some((false, "./types.d.ts".into()));
+          }
+          r.items.push(it);
+        }
+        if tape.draw(Stream::World, 4) == 3 {
+          r.source_map = Some("./rich.tsx.map".into());
+        }
+        if tape.draw(Stream::World, 6) == 5 {
+          r.shebang = true;
+        }
+        files.insert("/rich.tsx".to_string(), r);
+        modd.items.push(Item::new(
+          *tape.pick(Stream::World, &[Form::Named, Form::Dynamic]),
+          "./rich.tsx",
+        ));
+        let mut l = ModuleDesc::new("", Lang::Js);
+        if tape.draw(Stream::World, 2) == 1 {
+          l.self_types = Some("./types.d.ts".into());
+        }
+        if tape.draw(Stream::World, 2) == 1 {
+          l.items.push(Item::new(Form::JsDocImport, "./util.ts"));
+        }
+        if tape.draw(Stream::World, 2) == 1 {
+          l.items.push(Item::new(Form::JsDocType, "./mod.ts"));
+        }
+        if tape.draw(Stream::World, 3) == 2 {
+          l.items.push(Item::new(Form::TripleSlashTypes, "./types.d.ts"));
+        }
+        files.insert("/legacy.js".to_string(), l);
+        files
+          .entry("/types.d.ts".to_string())
+          .or_insert_with(|| ModuleDesc::new("", Lang::Dts));
+      }
       // cross-package dependency from mod.ts
       if tape.draw(Stream::World, 3) == 2 {
         let other = *tape.pick(Stream::World, &PKG_NAMES);
